@@ -80,3 +80,22 @@ Proof.
       rewrite (rr_entries_perm m). apply NoDup_fst_map_to_list.
   - cbn [app]. rewrite is_prefix_complete. rewrite bool_decide_eq_true_2 by reflexivity. rewrite Hv. reflexivity.
 Qed.
+
+(* ---------- Mercury offchain config (JSON) ---------- *)
+Lemma dec_string_num_chars d : forallb is_num_char (dec_string d) = true.
+Proof.
+  destruct (dec_string_num d) as (neg & body & -> & [Hb _]). rewrite forallb_app. apply andb_true_iff. split.
+  - destruct neg; reflexivity.
+  - apply forallb_forall. intros c Hc. rewrite forallb_forall in Hb. unfold is_num_char. rewrite (Hb c Hc). reflexivity.
+Qed.
+
+Theorem merc_off_roundtrip window fee : 0 <= window ->
+  exists fee', merc_off_decode (merc_off_encode window fee) = Some (window, fee') /\ deqvb fee fee' = true.
+Proof.
+  intros Hw. unfold merc_off_decode, merc_off_encode. rewrite is_prefix_complete.
+  destruct (span_digits window (s_m2 ++ dec_string fee ++ [34; 125]) Hw eq_refl) as (Hs & Hn & Hv). rewrite Hs.
+  destruct (nat_string window) as [|c ws] eqn:Ew; [congruence|]. rewrite is_prefix_complete.
+  rewrite (span_app is_num_char (dec_string fee) [34; 125] (dec_string_num_chars fee) eq_refl).
+  rewrite bool_decide_eq_true_2 by reflexivity.
+  destruct (dec_text_roundtrip fee) as (fee' & Hp & He). rewrite Hp. exists fee'. rewrite Hv. split; [reflexivity|exact He].
+Qed.
